@@ -43,6 +43,9 @@ class Counter_(object):
     bump = exposed_bump
 
 
+Point = collections.namedtuple("Point", "x y")
+
+
 class Abort(Exception):
     pass
 
@@ -106,6 +109,8 @@ class World(object):
                                               for k in x)
         if cls is Counter_:
             return ("obj", i, "ctr", x.get())
+        if cls is Point:
+            return ("obj", i, "namedtuple", len(x), self.describe(x[0], here, depth + 1), self.describe(x[1], here, depth + 1))
         return ("obj", i, "?", getattr(cls, "__name__", "?"))
 
     def snapshot(self):
@@ -119,6 +124,8 @@ class World(object):
                 out.append(["ctr", o.n])
             elif o is Counter_:
                 out.append(["class"])
+            elif type(o) is Point:
+                out.append(["namedtuple", vals.canon(tuple(o))])
             else:
                 out.append(["fn"])
         return out
@@ -161,6 +168,8 @@ class Side(object):
         if t == "mix":
             return tuple(self.mkarg(x, args, kwargs, nid, path + (i,)) for i, x in enumerate(a[1]))
         if t == "ref":
+            if a[1] == "nt":
+                return self.w.register(Point(3, "y"), self)     # a tuple SUBCLASS instance: travels by reference
             if a[1] == "cls":
                 return self.w.register(Counter_, self)        # the class itself: a callable that builds an instance
             obj = {"list": lambda: [1, "two"], "dict": lambda: {"k": 1, 2: "v"}, "ctr": Counter_, "empty": list}[a[1]]()
@@ -390,7 +399,7 @@ _val = vals.immutables(big=False, surrogates=False, max_leaves=3)
 
 @functools.lru_cache(maxsize=None)
 def arg(depth):
-    base = st.one_of(_val.map(lambda s: ["val", s]), st.sampled_from(["list", "dict", "ctr", "empty", "cls", "ctr"]).map(lambda k: ["ref", k]),
+    base = st.one_of(_val.map(lambda s: ["val", s]), st.sampled_from(["list", "dict", "ctr", "empty", "cls", "ctr", "nt"]).map(lambda k: ["ref", k]),
                      st.integers(0, 3).map(lambda i: ["pass", i]))
     if depth <= 0:
         return base
